@@ -2,14 +2,15 @@ CHECK = {
     "level": "exploration",
     "engine": "kxps-model",
     "technique": "runtime reference-model monitor compiled into package kxps: PRNG (time, counter) histories are fed to the unexported sampling steps doSample/sampleAverage in virtual time (the wall-clock goroutine is never started), rates are read through the public Krps/Kbps getters and compared after every observation with a window model written from the property statement (set of admissible model states where the statement leaves an observation of 0 open)",
-    "level_text": "Held on the executions observed: tens of thousands (quick) to millions (thorough) of histories of up to 200 observations each, for both meters, with every reading compared after every observation; counters show how often each window sampled, non-zero 300 s rates, stall/backwards steps that yielded 0, wrap-arounds across 2^64 that yielded the small true rate, zero observations, refusals before start and non-zero averages. Not a proof; time moves forwards in whole milliseconds, steps stay below 2^62.",
+    "level_text": "Held on the executions observed: tens of thousands (quick) to millions (thorough) of histories of up to 200 observations each, for both meters, with every reading compared after every observation; counters show how often each window sampled, non-zero 300 s rates, stall/backwards steps that yielded 0, wrap-arounds across 2^64 that yielded the small true rate, zero observations, refusals before start and non-zero averages. Not a proof; time only moves forwards, counter steps stay below 2^62.",
     "level_note": "Trusts the reference model lib/refkxps (written from the statement: increase since the window's previous sample divided by the window LENGTH, cascade 10->30->300, increase taken modulo 2^64), Go's runtime and float64 arithmetic to 1e-9 relative. The bitrate meter's Average() applies its x8/1000 scale only on the wall-clock path, which is not driven; the average is checked unscaled at sampleAverage(t). The `started` flag is set in-package instead of calling Start().",
     "parts": [
         {"name": "windows", "pkg": "kxps", "run": "^TestVerif_C20_Windows$",
          "timeout": {"quick": 600, "thorough": 3600}},
     ],
     "assumptions": [
-        "observation times never go backwards and are whole milliseconds; counter steps and resets stay below 2^62 (DESIGN 4.1)",
+        "observation times never go backwards; counter steps and resets stay below 2^62 (DESIGN 4.1)",
+        "two thirds of the histories use whole-millisecond instants (average compared to 1e-9); one third arbitrary nanoseconds incl. window lengths +-1 ns, where the average is accepted within a time resolution of 1 ms (the statement does not fix a resolution)",
         "an observation with counter 0 may be ignored or treated as an ordinary observation; both readings are tracked (DESIGN 4.1)",
         "the average is undefined while no time has passed since the first non-zero observation: any finite non-negative value is accepted there",
     ],
